@@ -67,6 +67,9 @@ func (w *World) VerifyFunc(fn *ssa.Function, mode *Mode, prop string) (x *X, err
 	B := x.B
 	st := &State{heap: map[string]*Term{}, cells: map[int]Value{}, pgen: map[string]int{}}
 	ct := w.ContractFor(fn)
+	if ct != nil && ct.NoWrap {
+		x.noWrap = true
+	}
 	nullable := map[string]bool{}
 	if ct != nil {
 		for _, n := range ct.Nullable {
@@ -203,6 +206,7 @@ func (w *World) VerifyFunc(fn *ssa.Function, mode *Mode, prop string) (x *X, err
 		}
 	}
 	x.retPC = rpc
+	x.splitConjuncts()
 	if mode.Functional && len(x.requires) > 0 {
 		// vacuity guard: the preconditions (with the axioms) must be satisfiable, and so must
 		// "the function returns" - a contradictory requires would make every obligation hold
@@ -403,7 +407,7 @@ func (x *X) discharge(timeout time.Duration, workers int) []*OblResult {
 					qf, _, _ := x.buildQuery(r.Obl, false, true)
 					mu.Unlock()
 					r.Size = len(qf)
-					sr := Solve(qf, fmt.Sprintf("%s_%d_vac", x.root, i), timeout)
+					sr := Solve(qf, fmt.Sprintf("%s_%d_vac", x.root, i), min(timeout, 3*time.Second))
 					r.Solver, r.Seconds, r.Raw = sr.Solver, sr.Seconds, sr.Raw
 					if sr.Status == "unsat" {
 						r.Status = "failed"
@@ -479,6 +483,18 @@ func (x *X) discharge(timeout time.Duration, workers int) []*OblResult {
 				defer wg2.Done()
 				defer func() { <-sem }()
 				r := results[i]
+				// first: case analysis over the paths that were merged into this obligation's
+				// path condition (each case is a much simpler query)
+				st, solver, secs, model, raw := x.solveByCases(r.Obl, timeout, &mu, 0, fmt.Sprintf("%s_%d", x.root, i))
+				r.Seconds += secs
+				switch st {
+				case "unsat":
+					r.Status, r.Solver, r.Raw = "discharged", solver+"(by cases)", raw
+					return
+				case "sat":
+					r.Status, r.Solver, r.Raw, r.Model = "failed", solver, raw, model
+					return
+				}
 				mu.Lock()
 				full, _, _ := x.buildQuery(r.Obl, true, false)
 				mu.Unlock()
@@ -725,4 +741,64 @@ func (w *World) collectInterestingTypes() {
 			add(sf.Body.Src)
 		}
 	}
+}
+
+// solveByCases splits the obligation's path condition on its largest
+// top-level disjunction (the last point where paths were merged) and solves
+// the cases separately: unsat iff every case is unsat, sat as soon as one case
+// has a model of the full query. Undecided cases are split once more.
+func (x *X) solveByCases(o *Obligation, timeout time.Duration, mu *sync.Mutex, depth int, name string) (status, solver string, secs float64, model map[string]string, raw string) {
+	mu.Lock()
+	var best *Term
+	var others []*Term
+	for _, c := range conjuncts(o.Guard) {
+		if c.Op == "or" {
+			if best != nil {
+				others = append(others, best)
+			}
+			best = c // the last one: the most recent merge of paths
+			continue
+		}
+		others = append(others, c)
+	}
+	mu.Unlock()
+	if best == nil || len(best.Args) > 12 {
+		return "unknown", "", 0, nil, ""
+	}
+	all := true
+	for k, d := range best.Args {
+		mu.Lock()
+		o2 := *o
+		o2.Guard = x.B.And(append(append([]*Term{}, others...), d)...)
+		full, _, _ := x.buildQuery(&o2, true, false)
+		mu.Unlock()
+		sr := Solve(full, fmt.Sprintf("%s_case%d_%d", name, depth, k), timeout)
+		secs += sr.Seconds
+		solver = sr.Solver
+		if os.Getenv("GOVC_CASES") != "" {
+			fmt.Fprintf(os.Stderr, "cases: %s depth %d case %d/%d: %s (%.1fs) %s\n", o.Name, depth, k+1, len(best.Args), sr.Status, sr.Seconds, truncateStr(d.String(), 400))
+		}
+		switch sr.Status {
+		case "unsat":
+			continue
+		case "sat":
+			return "sat", sr.Solver, secs, sr.Model, "case " + d.String()[:min(200, len(d.String()))] + "\n" + sr.Raw
+		}
+		if depth < 2 {
+			st, sv, s2, m, rw := x.solveByCases(&o2, timeout, mu, depth+1, fmt.Sprintf("%s_%d", name, k))
+			secs += s2
+			if st == "unsat" {
+				continue
+			}
+			if st == "sat" {
+				return "sat", sv, secs, m, rw
+			}
+		}
+		all = false
+		break
+	}
+	if all {
+		return "unsat", solver, secs, nil, "all cases unsat"
+	}
+	return "unknown", solver, secs, nil, ""
 }
